@@ -41,6 +41,8 @@ EXPLANATION = (
     "violation is reported only when it is positively something else (enumerate position, hand-advanced counter, literal, ...).  "
     "R9 (added) the Fortran DFDU/DFDP block numbers a parameter by its PAR slot from the one slot list (name -> slot by zip with the "
     "sequence the slots were computed for), never by its position (shares the slot typing of C18-R1).  "
+    "R10 (added) every key of a per-delay entry table owns its inner dict (no dict.fromkeys(keys, {}) / [{}] * n sharing; shared lint "
+    "shared_mutable_fill over all ComputeGraph methods and the Jacobian hooks).  "
     "NOT decided: the values of derivatives, DFDP numerics, the vector field itself (C01), the slot arithmetic itself (C18)."
 )
 RULE_TEXT = ("instances = entry-table stores found by def-use from sympy.diff calls, emitter call sites / templates found by name "
@@ -3108,6 +3110,125 @@ def r9_jacobian_parameter_slots(ctx, rid):
     ctx.require(n >= 2, f"{rid}: expected a dfdp(i,k) line and a __PYR_ARG_k__ substitution in the Jacobian block, found {n} slot-bearing templates")
 
 
+def r10_tables_are_distinct_objects(ctx, rid):
+    """Entries of different Jacobian matrices must live in different containers.  The per-delay tables (`T[d][(row, col)] = v`)
+    are values of one outer dict; every key of that dict needs its OWN inner dict, otherwise an entry stored for one delay shows
+    up in the matrix of every delay.  (a) for each such table the creation of the inner containers is located: a fresh display
+    per key (`T[d] = {}` in a loop, `{d: {} for d in ..}`, `setdefault(d, {})`) is accepted, one object handed to every key
+    (`dict.fromkeys(keys, {})`, `[{}] * n`) is a violation, anything else is not understood; (b) the shared lint
+    `shared_mutable_fill` runs over every method of ComputeGraph (analysis views), the Fortran Jacobian block and the backends'
+    Jacobian hooks."""
+    from ._pitfall_lints import shared_mutable_fill, _is_mutable_display
+    funcs = list(cg_methods(ctx))
+    try:
+        funcs.append(fortran_block(ctx)["view"])
+    except AnalysisError:
+        pass
+    base = ctx.repo.get_class(BASE, "BaseBackend")
+    for cls in ctx.repo.subclasses(base):
+        for hook in ("emit_local_array_assign", "emit_local_array_alloc"):
+            h = cls.methods.get(hook)
+            if h is not None:
+                funcs.append(_inlined(ctx, h))
+    hits = shared_mutable_fill(ctx, funcs)
+    reported = set()
+    for f, node, why in hits:
+        st = node
+        while not isinstance(st, ast.stmt):
+            st = parent(st)
+        reported.add(id(st))
+        ctx.violation(rid, f, st, f"{why}: Jacobian entries / code pieces stored under one key appear under all of them",
+                      label=f"shared container {norm(st)}")
+    ctx.ok(rid, cg_func(ctx, "get_jacobian_func"), cg_func(ctx, "get_jacobian_func").node,
+           f"{len(funcs)} functions scanned for containers whose elements are one shared mutable object", {"hits": len(hits)},
+           label="no shared mutable fill", nontrivial=False) if not hits else None
+    n_tables = 0
+    for f in jac_functions(ctx):
+        stores = entry_stores(ctx, f)
+        if not stores:
+            continue
+        S = stores[0].S
+        for root in sorted({es.root for es in stores if es.depth >= 1}):
+            n_tables += 1
+            es = [e for e in stores if e.root == root and e.depth >= 1][0]
+            label = f"inner tables of {root} are distinct"
+            fresh, shared, unknown = [], [], []
+
+            def judge(v, where, per_key):
+                """v = the object that becomes an inner table; per_key: evaluated once per key?"""
+                if _is_mutable_display(v) and per_key:
+                    fresh.append(norm(where))
+                elif _is_mutable_display(v):
+                    shared.append(norm(where))
+                else:
+                    unknown.append(norm(where))
+            for st in walk_shallow(f.node):
+                if isinstance(st, (ast.Assign, ast.AnnAssign)) and st.value is not None:
+                    tgs = st.targets if isinstance(st, ast.Assign) else [st.target]
+                    for t in tgs:
+                        if isinstance(t, ast.Name) and t.id == root:
+                            v = st.value
+                            if isinstance(v, ast.DictComp):
+                                judge(v.value, st, True)
+                            elif isinstance(v, ast.Dict) and not v.keys or (isinstance(v, ast.Call) and call_name(v) in ("dict", "OrderedDict")
+                                                                           and not v.args and not v.keywords):
+                                pass        # empty outer dict, filled elsewhere
+                            elif isinstance(v, ast.Call) and isinstance(v.func, ast.Attribute) and v.func.attr == "fromkeys":
+                                if len(v.args) == 2:
+                                    judge(v.args[1], st, False)
+                                else:
+                                    unknown.append(norm(st))
+                            elif isinstance(v, ast.Call) and call_name(v) == "dict" and len(v.args) == 1 and isinstance(v.args[0], ast.Call) \
+                                    and call_name(v.args[0]) == "zip" and len(v.args[0].args) == 2:
+                                vals = S.single_value(v.args[0].args[1])
+                                if isinstance(vals, ast.BinOp) and isinstance(vals.op, ast.Mult):
+                                    seq = vals.left if isinstance(vals.left, ast.List) else vals.right
+                                    if isinstance(seq, ast.List) and len(seq.elts) == 1:
+                                        judge(seq.elts[0], st, False)
+                                    else:
+                                        unknown.append(norm(st))
+                                elif isinstance(vals, (ast.ListComp, ast.GeneratorExp)):
+                                    judge(vals.elt, st, True)
+                                else:
+                                    unknown.append(norm(st))
+                            elif isinstance(v, ast.Call) and call_name(v) == "defaultdict" and v.args and isinstance(v.args[0], ast.Name) \
+                                    and v.args[0].id in ("dict", "OrderedDict"):
+                                fresh.append(norm(st))
+                            elif isinstance(v, ast.Name) and alias_root(S, v) != root:
+                                unknown.append(norm(st))
+                            elif not isinstance(v, ast.Name):
+                                unknown.append(norm(st))
+                        elif isinstance(t, ast.Subscript) and isinstance(t.value, ast.Name) and t.value.id == root \
+                                and not isinstance(t.slice, ast.Tuple):
+                            in_loop = any(isinstance(a, (ast.For, ast.While)) for a in ancestors(st) if a is not f.node)
+                            v = st.value
+                            if isinstance(v, ast.Name):
+                                bs = S.binds(v)
+                                # `tab = {}` bound inside the same loop iteration is a fresh object per key
+                                if len(bs) == 1 and bs[0].kind == "value" and bs[0].expr is not None and _is_mutable_display(bs[0].expr):
+                                    same_iter = [a for a in ancestors(st) if isinstance(a, (ast.For, ast.While))][:1] == \
+                                                [a for a in ancestors(bs[0].node) if isinstance(a, (ast.For, ast.While))][:1] and in_loop
+                                    (fresh if same_iter else shared).append(norm(st))
+                                else:
+                                    unknown.append(norm(st))
+                            else:
+                                judge(v, st, True)
+                elif isinstance(st, ast.Call) and isinstance(st.func, ast.Attribute) and st.func.attr == "setdefault" \
+                        and isinstance(st.func.value, ast.Name) and st.func.value.id == root and len(st.args) == 2:
+                    judge(st.args[1], st, True)
+            facts = {"fresh": fresh, "shared": shared, "unknown": unknown}
+            if shared:
+                ctx.violation(rid, f, es.stmt, f"the inner tables of `{root}` are ONE object for every key ({shared[0]}): "
+                                               f"`{norm(es.stmt)}` stores the entries of every delay into the same dict, so each "
+                                               f"history Jacobian receives the entries of all delays", facts, label=label)
+            elif unknown or not fresh:
+                raise AnalysisError(f"{rid}: {f.qual}: cannot see how the inner tables of `{root}` are created "
+                                    f"({(unknown or ['no creation found'])[0]})")
+            else:
+                ctx.ok(rid, f, es.stmt, f"every key of `{root}` gets its own dict ({fresh[0]})", facts, label=label)
+    ctx.require(n_tables >= 1, f"{rid}: no per-delay entry table (T[d][(row, col)] = v) found")
+
+
 RULES = [
     ("C12-R1", r1_index_provenance, 20),     # 8 row/column stores, 2 emitters, 1 hand-over, 2 Fortran lines, 5 text indices, 2 hooks
     ("C12-R2", r2_layout_loops, 6),          # 3 loops x (extent) + 2 sibling comparisons + per-DE lists
@@ -3118,4 +3239,5 @@ RULES = [
     ("C12-R7", r7_algebraic_expansion_fixpoint, 3),       # 2 _expr_to_jac_str call sites
     ("C12-R8", r8_placeholder_families_disjoint, 1),
     ("C12-R9", r9_jacobian_parameter_slots, 4),          # hand-over, zip pairing, dfdp(i,k), __PYR_ARG_k__
+    ("C12-R10", r10_tables_are_distinct_objects, 1),     # the per-delay table J_hist
 ]
